@@ -268,6 +268,8 @@ def _ident_from_out(path, root):
 
 def apply_plant(root, entries):
     for e in entries:
+        if e.get("only_if") and not os.path.isdir(os.path.join(root, e["only_if"])):
+            continue
         p = os.path.join(root, e["path"])
         k = e.get("kind", "dir")
         if k == "dir":
@@ -366,6 +368,8 @@ def run_history(scn):
                 dst = os.path.join(d, st["name"])
                 shutil.copytree(root, dst, ignore=shutil.ignore_patterns("cond-out", ".ctl"))
                 os.makedirs(os.path.join(dst, ".ctl"))
+                continue
+            if st.get("if_exists") and not os.path.isfile(os.path.join(root, st["if_exists"])):
                 continue
             if cmd == "roundtrip":
                 src = CLI.project_store(root)
